@@ -855,7 +855,7 @@ open Purr.Spec
 
 /-- what the simulation establishes for an atom created during it: all its bonds are processed, arrival first -/
 def Done (g : Graph) (G : List Node) (ord : List Nat) (proc : Nat → List Bond) (x : Nat) : Prop :=
-  ∃ q atomX back, q ∈ ord ∧ g[x]? = some atomX ∧ bondsTo atomX.bonds q = [back] ∧
+  ∃ q atomX back, (q ∈ ord ∧ pos ord q < pos ord x) ∧ g[x]? = some atomX ∧ bondsTo atomX.bonds q = [back] ∧
     proc x = arrivalFirst (some q) atomX.bonds ∧
     kindAt G (pos ord x) = some (enterKind q atomX.kind atomX.bonds).invert
 
@@ -863,7 +863,8 @@ theorem Done.lift {g : Graph} {G G' : List Node} {ord : List Nat} {proc proc' : 
     (h : Done g G ord proc x) (hx : x ∈ ord) (more : List Nat) (hp : proc' x = proc x)
     (hk : kindAt G' (pos ord x) = kindAt G (pos ord x)) : Done g G' (ord ++ more) proc' x := by
   obtain ⟨q, atomX, back, hq, hg, hb, hpx, hkx⟩ := h
-  exact ⟨q, atomX, back, by simp [hq], hg, hb, by rw [hp, hpx], by rw [pos_append_of_mem hx, hk, hkx]⟩
+  exact ⟨q, atomX, back, ⟨by simp [hq.1], by rw [pos_append_of_mem hq.1, pos_append_of_mem hx]; exact hq.2⟩, hg, hb, by rw [hp, hpx],
+    by rw [pos_append_of_mem hx, hk, hkx]⟩
 
 /-- RTC, general case: the simulation between the recursive traversal and the graph builder. -/
 theorem kids_simR (g : Graph) (hw : WellFormed g) : ∀ (fuel : Nat) (ord : List Nat) (pool : Pool) (a : Nat) (p : Option Nat)
@@ -1090,9 +1091,11 @@ theorem kids_simR (g : Graph) (hw : WellFormed g) : ∀ (fuel : Nat) (ord : List
                   rcases hx with hx | hx | hx
                   · subst hx
                     apply lift b.tid ht1 (Ne.symm hat)
-                    refine ⟨a, tatom, back, ha1, htat, hback, by rw [hp2t, procAt_all], ?_⟩
                     have hpx : pos ord1 b.tid = ord.length := by
                       rw [hord1, pos_append_of_mem (by simp : b.tid ∈ ord ++ [b.tid])]; exact hpos_t
+                    have hpa : pos ord1 a < pos ord1 b.tid := by
+                      rw [hpx, hord1, List.append_assoc, pos_append_of_mem ha]; exact pos_lt_of_mem ha
+                    refine ⟨a, tatom, back, ⟨ha1, hpa⟩, htat, hback, by rw [hp2t, procAt_all], ?_⟩
                     rw [hpx, brun_kindAt hrun1 (by rw [hlen1, hg0]; omega), ← hg0]; exact hkind1
                   · have hx1 : x ∈ ord1 := by rw [hord1]; simp [hx]
                     have hxa : x ≠ a := by
@@ -1109,7 +1112,7 @@ open Purr.Spec
 
 /-- an atom whose bonds are all processed -/
 def Fin (g : Graph) (G : List Node) (ord : List Nat) (proc : Nat → List Bond) (x : Nat) : Prop :=
-  ∃ atomX arr, g[x]? = some atomX ∧ (∀ q, arr = some q → q ∈ ord ∧ ∃ back, bondsTo atomX.bonds q = [back]) ∧
+  ∃ atomX arr, g[x]? = some atomX ∧ (∀ q, arr = some q → (q ∈ ord ∧ pos ord q < pos ord x) ∧ ∃ back, bondsTo atomX.bonds q = [back]) ∧
     proc x = arrivalFirst arr atomX.bonds ∧ kindAt G (pos ord x) = some (enteredKind arr atomX)
 
 theorem Done.fin {g G ord proc x} (h : Done g G ord proc x) : Fin g G ord proc x := by
@@ -1120,7 +1123,8 @@ theorem Fin.lift {g : Graph} {G G' : List Node} {ord : List Nat} {proc proc' : N
     (h : Fin g G ord proc x) (hx : x ∈ ord) (more : List Nat) (hp : proc' x = proc x)
     (hk : kindAt G' (pos ord x) = kindAt G (pos ord x)) : Fin g G' (ord ++ more) proc' x := by
   obtain ⟨atomX, arr, hg, harr, hpx, hkx⟩ := h
-  exact ⟨atomX, arr, hg, fun q hq => ⟨by simp [(harr q hq).1], (harr q hq).2⟩, by rw [hp, hpx],
+  exact ⟨atomX, arr, hg, fun q hq => ⟨⟨by simp [(harr q hq).1.1],
+      by rw [pos_append_of_mem (harr q hq).1.1, pos_append_of_mem hx]; exact (harr q hq).1.2⟩, (harr q hq).2⟩, by rw [hp, hpx],
     by rw [pos_append_of_mem hx, hk, hkx]⟩
 
 /-- RTC, general case, all components -/
@@ -1215,9 +1219,9 @@ theorem erase_all_id {ord : List Nat} : ∀ {es : List Edge} {l : List Bond},
 
 /-- RTC: building from the events of the traversal of ANY well-formed graph gives the graph renumbered in
     visit order with every arrival bond first. -/
-theorem rtc (g : Graph) (hw : WellFormed g) (es : List (Event × Nat)) (ord : List Nat)
+theorem rtcP (g : Graph) (hw : WellFormed g) (es : List (Event × Nat)) (ord : List Nat)
     (h : walkRecL g = some (es, ord)) :
-    ∃ g', build? (es.map (·.1)) = some (.ok g') ∧ Relabelled g ord g' ∧ ord.Nodup ∧ (∀ x, x < g.length ↔ x ∈ ord) := by
+    ∃ g', build? (es.map (·.1)) = some (.ok g') ∧ RelabelledP g ord g' ∧ ord.Nodup ∧ (∀ x, x < g.length ↔ x ∈ ord) := by
   unfold walkRecL at h
   split at h
   · cases h
@@ -1247,7 +1251,7 @@ theorem rtc (g : Graph) (hw : WellFormed g) (es : List (Event × Nat)) (ord : Li
         unfold bondsTo at this; simpa using (List.mem_filter.mp this).2
       exact ⟨fun _ => ⟨back, hbk, hbt⟩, fun _ => ⟨b, hb, rfl⟩⟩
     have hok : ∀ x ∈ ord0, ∃ atomX arr, g[x]? = some atomX ∧
-        (∀ q, arr = some q → q ∈ ord0 ∧ ∃ back, bondsTo atomX.bonds q = [back]) ∧
+        (∀ q, arr = some q → (q ∈ ord0 ∧ pos ord0 q < pos ord0 x) ∧ ∃ back, bondsTo atomX.bonds q = [back]) ∧
         view s'.graph (pos ord0 x) = some ((arrivalFirst arr atomX.bonds).map (edgeOf ord0)) ∧
         kindAt s'.graph (pos ord0 x) = some (enteredKind arr atomX) := by
       intro x hx
@@ -1304,5 +1308,13 @@ theorem rtc (g : Graph) (hw : WellFormed g) (es : List (Event × Nat)) (ord : Li
         obtain ⟨atomX, _, hg, _⟩ := hok x hx
         apply Nat.lt_of_not_le; intro hge
         rw [List.getElem?_eq_none_iff.mpr hge] at hg; cases hg
+
+/-- RTC: building from the events of the traversal of ANY well-formed graph gives the graph renumbered in
+    visit order with every arrival bond first. -/
+theorem rtc (g : Graph) (hw : WellFormed g) (es : List (Event × Nat)) (ord : List Nat)
+    (h : walkRecL g = some (es, ord)) :
+    ∃ g', build? (es.map (·.1)) = some (.ok g') ∧ Relabelled g ord g' ∧ ord.Nodup ∧ (∀ x, x < g.length ↔ x ∈ ord) := by
+  obtain ⟨g', h1, h2, h3, h4⟩ := rtcP g hw es ord h
+  exact ⟨g', h1, h2.relabelled, h3, h4⟩
 
 end Purr
